@@ -85,6 +85,7 @@ func classify(err error) string {
 		{"Invalid commit -- wrong height", "vcHeight"},
 		{"Invalid commit -- wrong round", "vcRound"},
 		{"Invalid commit -- not precommit", "vcType"},
+		{"Invalid commit -- precommit @ index", "vcLabel"},
 		{"Invalid commit -- invalid signature", "vcSig"},
 		{"Invalid commit -- insufficient voting power", "vcPower"},
 	} {
